@@ -350,7 +350,7 @@ func JudgeConstraints(w *World) *Verdict {
 	v := &Verdict{History: h, Findings: EngineFindings(h)}
 	var tot ConstraintFacts
 	for _, rec := range h.Cycles {
-		if rec.Panic != "" || rec.Hung {
+		if rec.Panic != "" || rec.Hung || rec.Starved {
 			continue
 		}
 		fs, f := CheckConstraints(w, rec)
